@@ -452,12 +452,13 @@ static bool long_exponent(const std::string& t) {
   return c5::out_of_scope(reinterpret_cast<const uint8_t*>(t.data()), t.size(), &why) && why[0] == 'e';
 }
 
-static std::vector<c5::Outcome> run_stream(const Case& c) {
+static std::vector<c5::Outcome> run_stream(const Case& c, const std::vector<bool>& skip) {
   std::vector<c5::Outcome> out(c.s.size());
   std::exception_ptr err;
   std::thread th([&] {
     try {
       for (size_t k = 0; k < c.s.size(); k++) {
+        if (skip[k]) continue;
         uint64_t f = c.u(k);
         out[k] = c5::run_parse(c.s[k], f & 1, static_cast<c5::Entry>((f >> 1) & 3));
       }
@@ -472,16 +473,22 @@ static std::vector<c5::Outcome> run_stream(const Case& c) {
 
 static void run_seq(const Case& c) {
   if (c.s.empty() || c.s.size() > 4096 || c.n.size() != c.s.size()) throw std::logic_error("seq case: bad shape");
-  size_t total = 0;
+  size_t total = 0, skipped = 0;
+  std::vector<bool> skip(c.s.size(), false);
   for (size_t k = 0; k < c.s.size(); k++) {
     if (((c.u(k) >> 1) & 3) > 2) throw std::logic_error("seq case: bad entry point");
-    if (long_exponent(c.s[k])) throw std::logic_error("seq case: exponent of more than 3 digits");
+    if (long_exponent(c.s[k])) { // outside the stated domain (only makes the scanner loop): left out of the stream and counted
+      skip[k] = true;
+      skipped++;
+    }
     total += c.s[k].size();
   }
   if (total > (4u << 20)) throw std::logic_error("seq case: too long");
-  std::vector<c5::Outcome> out = run_stream(c);
+  std::vector<c5::Outcome> out = run_stream(c, skip);
+  if (skipped) ctx().exclude("stream text with an exponent of more than 3 digits", skipped);
   bool reader_only = true, rejected_before = false, accepted_after_reject = false;
   for (size_t k = 0; k < c.s.size(); k++) {
+    if (skip[k]) continue;
     const std::string& text = c.s[k];
     bool strict = c.u(k) & 1;
     c5::Entry en = static_cast<c5::Entry>((c.u(k) >> 1) & 3);
@@ -552,8 +559,11 @@ static Case gen_seq() {
     c.N(vg::below(2) | (entry << 1));
     // a stream ends in documents that must be read
     bool tail = k + 2 >= n;
-    if (tail && vg::coin()) c.S(deep_theme ? gen_nested(vg::chance(1, 2) ? 500 : 1 + vg::below(500)) : render(gen_doc_tokens(2 + static_cast<int>(vg::scaled(12)), 4)));
-    else c.S(gen_seq_text(deep_theme));
+    if (tail && vg::coin()) {
+      std::string doc = deep_theme ? gen_nested(vg::chance(1, 2) ? 500 : 1 + vg::below(500)) : render(gen_doc_tokens(2 + static_cast<int>(vg::scaled(12)), 4));
+      if (long_exponent(doc)) doc = "[]"; // the textual filter also fires on  e<4 digits>  inside a string
+      c.S(doc);
+    } else c.S(gen_seq_text(deep_theme));
   }
   return c;
 }
